@@ -206,7 +206,7 @@ def run_derivative(case, ctx):
             rho_f = max(rho_f, min(1.0, m.rho_valid))
         # the rounding floor at the reported step, capped by what the best window could have achieved: a step at which
         # rounding swamps everything does not excuse a (near) zero estimate next to a wrong value
-        floor_uncapped = EPS * m.lam * m.S_at(rho_f)
+        floor_uncapped = EPS * m.lam * max(m.S_at(rho_f), (m.cn_noise / EPS) if m.cancel_free else 0.0)
         floor = min(floor_uncapped, CAP_E * m.E / C_FLOOR)
         if case['step'].get('hostile'):
             ctx.count('hostile_tail_elements_in_scope')
@@ -353,8 +353,7 @@ def classify(wit):
     f = wit.get('facts') or {}
     if wit.get('check') != 'error_exceeds_estimate_and_rounding_floor':
         return None
-    if f.get('method') == 'multicomplex' and set(f.get('operators') or []) & {'powi', 'powr', 'div', 'arctan', 'arcsin',
-                                                                              'arcsinh', 'arctanh', 'tan', 'tanh', 'sqrt'}:
+    if f.get('method') == 'multicomplex' and set(f.get('operators') or []) & {'arctan', 'arcsin'}:
         return 'multicomplex-log-formula-cancellation'
     if f.get('cls') == 'Derivative' and f.get('full_window') is False and not f.get('single_row_estimate_below_its_step'):
         return 'estimate-without-extrapolation-is-a-placeholder'
